@@ -642,6 +642,15 @@ def _check_copy(R, h, hp, expr, line, tparams):
     R("C05", "C05.R4", "ok" if ok and not extra and U(expr) == dest else "bad", h, line, "copy_ stores",
       f"copy_ overwrites {dest}._data and {dest}._scale with op({dest}.<f>, {src}.<f>) (or the source re-quantized with the destination's parameters) and returns {dest}: {ok and not extra}",
       "any copy: destination keeps stale codes or scale")
+    # C06: the destination keeps its declared axis, so its scale must keep its layout: written in place through the op (which refuses
+    # a source scale of another shape) - rebinding it to the source's scale accepts any layout under the destination's axis
+    ef = stores.get("_scale")
+    in_place = ef is not None and is_op_call(ef[3]) and len(ef[3].args) >= 2 and U(ef[3].args[0]) == f"{dest}._scale"
+    same_layout = hp.fact(f"{dest}.axis == {src}.axis") is True or hp.fact(f"{src}.axis == {dest}.axis") is True or hp.fact(f"{dest}._scale.shape == {src}._scale.shape") is True
+    if ef is not None:
+        R("C06", "C06.R8", "ok" if (in_place or same_layout) else "bad", h, line, "copy_ keeps the scale layout of the declared axis",
+          f"copy_ writes the destination scale {'in place through the op' if in_place else 'by rebinding it (`' + U(ef[3])[:60] + '`)'}; the destination's axis is unchanged: in place / same layout established = {in_place or same_layout}",
+          "per_tensor.copy_(per_axis) or axis0.copy_(axis_last): accepted, the destination then declares an axis its scale does not broadcast along")
 
 
 def _dispatch_rules(repo: Repo, hs) -> List[Rec]:
